@@ -232,6 +232,7 @@ class Obj:
         self.cls, self.fields = cls, dict(fields or {})
         self.closed = closed  # all instance attributes are listed: reading another one raises AttributeError
         self.label = label
+        self.dyn = {}  # attribute -> callable() giving its current value (computed attributes of model objects)
 
     def __repr__(self):
         return self.label or "Obj(%s)" % (self.cls.name if self.cls is not None else "?")
@@ -966,6 +967,8 @@ class Ev:
                 return DictV.alias(v.fields)
             if attr == "__class__" and v.cls is not None:
                 return ClassRef(v.cls)
+            if attr in v.dyn:
+                return v.dyn[attr]()
             if attr in v.fields:
                 return v.fields[attr]
             c = v.cls
@@ -981,6 +984,8 @@ class Ev:
                     return self.ev(c.class_assigns[attr], {"__mod__": c.mod}, c.mod)
             if attr.startswith("_") and attr[1:] in v.fields:
                 return v.fields[attr[1:]]
+            if "_" + attr in v.fields:
+                return v.fields["_" + attr]  # a plain instance attribute given under its private spelling
             if v.closed:
                 raise _Raise(node, "%r has no attribute %s" % (v, attr), "AttributeError")
             raise AnalysisError("attribute %s of %r is not modelled (line %s)" % (attr, v, getattr(node, "lineno", "?")))
@@ -1036,7 +1041,12 @@ class Ev:
         try:
             env = {"__outer__": f.env, "__mod__": f.mod, "__cls__": f.cls}
             env.update(self.bind_args(fn, args, kwargs, receiver=f.self_val, mod=f.mod))
+            is_gen = any(isinstance(n, (ast.Yield, ast.YieldFrom)) for n in _walk_own(fn))
+            if is_gen:
+                env["__yield__"] = []
             r = self.block(fn.body, env, f.mod)
+            if is_gen:
+                return ListV(env["__yield__"])  # a generator is modelled by the list of what it yields
             return r[1] if r is not None else NONE
         finally:
             self.depth -= 1
@@ -1269,6 +1279,12 @@ class Ev:
             if sym is None:
                 raise AnalysisError("numeric operation %s at line %d" % (type(op).__name__, node.lineno))
             return Term(sym, [a, b])
+        if isinstance(a, SetV) and isinstance(b, SetV) and isinstance(op, (ast.Sub, ast.BitOr, ast.BitAnd)):
+            if isinstance(op, ast.Sub):
+                return SetV([x for x in a.items if not any(same(x, y) for y in b.items)])
+            if isinstance(op, ast.BitAnd):
+                return SetV([x for x in a.items if any(same(x, y) for y in b.items)])
+            return SetV(list(a.items) + [y for y in b.items if not any(same(x, y) for x in a.items)])
         if isinstance(op, ast.Add):
             if isinstance(a, Str) and isinstance(b, Str):
                 return a + b
@@ -1435,6 +1451,18 @@ class Ev:
             return self.subscript(self.ev(e.value, env, mod), e.slice, env, mod, e)
         if isinstance(e, ast.Call):
             return self.call(e, env, mod)
+        if isinstance(e, (ast.Yield, ast.YieldFrom)):
+            sink, e2 = None, env
+            while e2 is not None and sink is None:
+                sink = e2.get("__yield__")
+                e2 = e2.get("__outer__")
+            if sink is None:
+                raise AnalysisError("yield outside a generator at line %d" % e.lineno)
+            if isinstance(e, ast.Yield):
+                sink.append(self.ev(e.value, env, mod) if e.value is not None else NONE)
+            else:
+                sink.extend(self.iterate(self.ev(e.value, env, mod), e))
+            return NONE
         if isinstance(e, ast.Lambda):
             fn = ast.FunctionDef(name="<lambda>", args=e.args, body=[ast.Return(value=e.body, lineno=e.lineno, col_offset=0)], decorator_list=[], lineno=e.lineno, col_offset=0)
             return FuncV(fn, env=env, mod=mod)
@@ -1559,6 +1587,15 @@ class Ev:
             if name == "float" and len(args) == 1:
                 return args[0]
             return Term(name, args)
+        if name in ("min", "max") and len(args) == 1 and isinstance(args[0], ListV):
+            items = args[0].items
+            if items and all(isinstance(x, (int, float)) and not isinstance(x, bool) for x in items):
+                return (max if name == "max" else min)(items)
+            if not items:
+                if "default" in kwargs:
+                    return kwargs["default"]
+                raise _Raise(e, "%s() of an empty collection" % name, "ValueError")
+            raise Undecided("%s(%r)" % (name, items))
         if name in ("round", "abs", "min", "max") and args and all(isinstance(a, (int, float)) for a in args):
             return {"round": round, "abs": abs, "min": min, "max": max}[name](*args)
         if name == "type" and len(args) == 1:
@@ -1885,6 +1922,25 @@ class Ev:
                 return SetV([x for x in recv.items if any(same(x, y) for y in other) == keep])
             if name == "copy":
                 return SetV(list(recv.items))
+            if name in ("difference_update", "intersection_update"):
+                other = [x for a in args for x in self.iterate(a, e)]
+                keep = name == "intersection_update"
+                recv.items[:] = [x for x in recv.items if any(same(x, y) for y in other) == keep]
+                return NONE
+            if name in ("issubset", "issuperset", "isdisjoint"):
+                other = self.iterate(args[0], e)
+                if name == "issubset":
+                    return all(any(same(x, y) for y in other) for x in recv.items)
+                if name == "issuperset":
+                    return all(any(same(x, y) for y in recv.items) for x in other)
+                return not any(any(same(x, y) for y in other) for x in recv.items)
+            if name == "clear":
+                recv.items[:] = []
+                return NONE
+            if name == "pop":
+                if not recv.items:
+                    raise _Raise(e, "pop from an empty set", "KeyError")
+                return recv.items.pop()
         if isinstance(recv, ListV) and not isinstance(recv, TupV) and not isinstance(recv, SetV):
             if name == "append":
                 recv.items.append(args[0])
@@ -2001,6 +2057,17 @@ class Ev:
                 raise _Raise(node, "KeyError %s[%r]" % (v.cls.name, k.text()))
             raise Undecided("%s[%r]" % (v.cls.name, k))
         raise AnalysisError("subscript of %r at line %d is not modelled" % (v, node.lineno))
+
+
+def _walk_own(fn):
+    """nodes of a function body without those of nested functions / lambdas"""
+    stack = list(fn.body)
+    while stack:
+        n = stack.pop()
+        yield n
+        for c in ast.iter_child_nodes(n):
+            if not isinstance(c, (ast.FunctionDef, ast.AsyncFunctionDef, ast.Lambda, ast.ClassDef)):
+                stack.append(c)
 
 
 def _load(t):
